@@ -3,6 +3,7 @@ package conc
 import (
 	"fmt"
 	"os"
+	"runtime/debug"
 	"sort"
 	"strings"
 	"time"
@@ -388,7 +389,22 @@ func ChildC06Concurrent(rep *report.Report, tier, part string) {
 		return
 	}
 	t0 := time.Now()
-	seq := linSequential(lc.progs, lc.fib)
+	var seq map[string]bool
+	crashed := false
+	func() {
+		// the sequential reference runs the real code natively: a panic there (or the lock-leak watch of the native
+		// shims firing) is a verdict about the code under test, not an engine failure
+		defer func() {
+			if r := recover(); r != nil {
+				crashed = true
+				rep.Violate("crash/"+crashSite(string(debug.Stack())), fmt.Sprintf("the server panicked while the programs were run SEQUENTIALLY (reference of the concurrent-sessions tier): %v", r), map[string]any{"scenario": "concurrent-sessions/" + part[4:]})
+			}
+		}()
+		seq = linSequential(lc.progs, lc.fib)
+	}()
+	if crashed {
+		return
+	}
 	seqT := time.Since(t0)
 	var pnames []string
 	for _, p := range lc.progs {
